@@ -413,9 +413,14 @@ class Runner:
     def __init__(self, ctx, ex):
         self.ctx, self.ex = ctx, ex
         self.cases = []
+        self.sampled = set()
 
     def add(self, case, family):
         self.cases.append((case, family))
+        if family not in self.sampled and case["conn"] != "dense" or (family not in self.sampled and case["geom"].get("nin", 9) <= 4):
+            self.sampled.add(family)
+            self.ex.samples.append({"family": family, **{k: case[k] for k in ("variant", "params", "conn", "geom", "B", "T", "delaymode",
+                                                                               "delays", "red", "update", "pre", "post", "signal")}})
 
     def flush(self):
         ctx, ex = self.ctx, self.ex
@@ -547,11 +552,11 @@ def explore(ctx) -> Exploration:
     grid = list(allc)
     rng.shuffle(grid)
     if not heavy:
-        # quick: every (variant, trace mode, delay mode) once, the sign mode rotating
-        seen, keep = set(), []
+        # quick: every (variant, trace mode, delay mode) twice, with two of the four sign modes
+        seen, keep = {}, []
         for v, sg, near, dm in grid:
-            if (v, near, dm) not in seen:
-                seen.add((v, near, dm))
+            if seen.get((v, near, dm), 0) < 2:
+                seen[(v, near, dm)] = seen.get((v, near, dm), 0) + 1
                 keep.append((v, sg, near, dm))
         grid = keep
     for v, sg, near, dm in grid:
@@ -589,8 +594,6 @@ def explore(ctx) -> Exploration:
                "dense / direct / lateral / conv cells with batches 1-4, sum / mean reductions, per-synapse delays, scalar and per-sample "
                "signals, update() every step or at the end.  One case = one weight's run; non-trivial = at least one pre and one post "
                "spike in its receptive field; distinct = distinct (configuration, delay, history)")
-    if R is not None and ex.samples == []:
-        ex.samples = [{"variant": "stdp", "history": "10010:01101", "delay_steps": 1}]
     return ex
 
 
